@@ -114,6 +114,9 @@ def main():
         if p not in sys.path:
             sys.path.insert(0, p)
     sys.setrecursionlimit(job.get("recursionlimit", 3000))
+    if job.get("mem_limit"):
+        import resource
+        resource.setrlimit(resource.RLIMIT_AS, (job["mem_limit"], job["mem_limit"]))
     out = open(job["out"], "a", buffering=1)
     ns = {}
     exec("import sys, math, gc, operator, collections, fractions, decimal, itertools, functools\n"
@@ -139,10 +142,13 @@ def main():
     if job.get("setup"):
         exec(job["setup"], ns)
     cases = job["cases"]
+    import signal
+    case_timeout = int(job.get("case_timeout", 20))
     log_attr = job.get("log_attr", "LOG")
     for i in range(start, len(cases)):
         c = cases[i]
         out.write("B %d\n" % i)
+        signal.alarm(case_timeout)     # default action kills the process: hang -> "timeout" outcome for case i
         log = getattr(M, log_attr, None)
         if isinstance(log, list):
             del log[:]
@@ -160,6 +166,7 @@ def main():
         if "post" in c:
             res.append(["post", outcome_of(lambda: eval(c["post"], ns))])
         out.write("R %d %s\n" % (i, json.dumps(res)))
+        signal.alarm(0)
     out.close()
     sys.stdout.flush()
     sys.stderr.flush()
